@@ -50,6 +50,8 @@ type Fault struct {
 	KeyContain string // "" = any
 	Action     string // "error" | "block" | "crash-before" | "crash-after" | "delay"
 	Persistent bool   // keeps firing for every later request once triggered
+	Skip       int    // let this many matching requests pass before firing
+	OnlyReads  bool   // with Persistent: once triggered, only GET and LIST requests keep failing (a read outage)
 	Delay      time.Duration
 	// Kind is how an "error" fault surfaces: "reset" (connection reset, no
 	// status), "5xx" (a 503 from the service), "cut" (a GET whose body ends
@@ -411,7 +413,7 @@ func (v *View) before(ctx context.Context, op, key string) (error, string) {
 	var hit *Fault
 	for _, f := range c.faults {
 		if f.fired {
-			if f.Persistent {
+			if f.Persistent && (f.OnlyReads == false || op == OpGet || op == OpList) {
 				hit = f
 				break
 			}
@@ -427,6 +429,10 @@ func (v *View) before(ctx context.Context, op, key string) (error, string) {
 			continue
 		}
 		if f.KeyContain != "" && !strings.Contains(key, f.KeyContain) {
+			continue
+		}
+		if f.Skip > 0 {
+			f.Skip--
 			continue
 		}
 		f.fired = true
